@@ -116,6 +116,9 @@ def run(ck):
     for c in ("29", "101", "109"):
         ck.mc("MC_Scalar", "MC_Scalar_%s.cfg" % c, note="Z/l' for toy curve %s: all pairs of byte strings, all 2-byte wide inputs" % c, workers=8)
     ck.mc("MC_ExpChain", "MC_ExpChain.cfg", note="scalar inversion chain ends at l-2 (full size)", workers=1)
+    if not quick:
+        ck.apalache("AP_ScalarSub52", 2, "Scalar52::sub = (a - b) mod l for ALL reduced 52-bit-limb operands (borrow chain + masked add-back)", cinit="CSub", timeout=1500)
+        ck.apalache("AP_ScalarSub52", 2, "Scalar52::add = (a + b) mod l for ALL reduced operands", cinit="CAdd", timeout=1500)
     backends = ["s64", "s32"] if quick else ["s64", "s32", "f64", "f32", "v2"]
     bins = build_many([(b, True, "release", ()) for b in backends], jobs=3)
     traces = []
